@@ -49,6 +49,9 @@ type Contract struct {
 	File      string
 	Line      int
 	Lets      []LetDef
+	// witness hints: "witness m := expr" proposes expr (which may name locals at the return)
+	// for a top-level "exists m" of a postcondition when that postcondition is an obligation
+	Witness map[string]CExpr
 	// call-site assertions: "assert call <callee-substring> : expr"
 	CallAsserts []CallAssert
 	Owns        []string // pointer parameters whose referent only this function (and callees it passes it to) can modify
@@ -106,7 +109,7 @@ func NewContractSet() *ContractSet {
 }
 
 var keywords = map[string]bool{"func": true, "global": true, "requires": true, "ensures": true, "ensures_assumed": true, "uses": true, "pow10_max": true, "owns": true, "panics_iff": true, "panics_if": true, "panic_typ": true, "on_panic": true, "define": true,
-	"may_panic": true, "no_runtime_panic": true, "no_index_panic": true, "int_values_immutable": true, "modifies": true, "loop": true, "props": true, "trusted": true, "inline": true, "let": true,
+	"may_panic": true, "no_runtime_panic": true, "no_index_panic": true, "int_values_immutable": true, "modifies": true, "loop": true, "props": true, "trusted": true, "inline": true, "let": true, "witness": true,
 	"lemma": true, "pure": true, "package": true, "keeper_iface": true, "var": true, "hyp": true, "concl": true, "assert": true, "end": true}
 
 var funcHdr = regexp.MustCompile(`^func\s+(\([^)]*\)\.)?([A-Za-z0-9_$#\[\],./\-]+)\s*\(([^)]*)\)\s*(.*)$`)
@@ -338,6 +341,16 @@ func (cs *ContractSet) ParseContractText(file, pkg, text string, trusted bool) {
 				cur.Trusted = true
 			case "inline":
 				cur.Inline = true
+			case "witness":
+				i := strings.Index(rest, ":=")
+				if i < 0 {
+					errf(rl.n, "bad witness")
+					continue
+				}
+				if cur.Witness == nil {
+					cur.Witness = map[string]CExpr{}
+				}
+				cur.Witness[strings.TrimSpace(rest[:i])] = parse(rl.n, rest[i+2:])
 			case "let":
 				i := strings.Index(rest, ":=")
 				if i < 0 {
